@@ -53,6 +53,13 @@ def run(ctx):
       'which REQUESTED trial is popped from the pool is the code\'s documented choice (last queued first); the model fixes it',
   ]
   svc.run_rounds(ctx, 'C02', rounds(ctx), walks(ctx))
+  if True:
+    # the repository's own service tests, recorded and judged by VizierTraceLite.tla (step predicates of this property)
+    import c01_repotests
+    import tlc
+    with tlc.Scratch('c02_repotests') as d:
+      layer = c01_repotests.run(ctx, d)
+    ctx.coverage['traces_validated_against_impl'] = ctx.coverage.get('traces_validated_against_impl', 0) + layer['servicers_recorded']
   client_layer(ctx)
 
 
